@@ -154,6 +154,27 @@ Proof.
 Qed.
 Print Assumptions slot_epoch_emits_at_most_once.
 
+(** "it is emitted whenever all its frames arrive ... and never otherwise": on ANY schedule of
+    the frames of an honestly fragmented multi-frame packet the slot emits the packet if and
+    only if every one of its frames occurs in the schedule. *)
+Theorem slot_epoch_emits_iff_all_frames_arrive :
+  forall (B : Type) (mtu so : N) (data : list B) frames nxt (sched : list nat)
+         (q : queue B) f0 d,
+    fragmenter_send mtu so data = Ok (frames, nxt) ->
+    (2 <= length frames)%nat ->
+    (forall j, In j sched -> (j < length frames)%nat) ->
+    length (q_buf q) = N.to_nat MAX_PACKET_SIZE -> h_so (f_hdr f0) = so ->
+    (existsb is_emit (feed (queue_init q f0) (map (fun j => nth j frames d) sched)) = true
+     <-> forall k, (k < length frames)%nat -> In k sched).
+Proof.
+  intros B mtu so data frames nxt sched q f0 d Hs Hn Hj Hb Hf.
+  rewrite (Live.slot_epoch_any_schedule mtu so data frames nxt sched q f0 d Hs Hn Hj Hb Hf).
+  rewrite (spec_feed_emits_iff_all_arrive so (length frames) data sched [] (NoDup_nil _));
+    [|intros ? []|cbn [length]; lia|exact Hj].
+  split; intros H k Hk; [destruct (H k Hk) as [[]|H1]; exact H1|right; apply H; exact Hk].
+Qed.
+Print Assumptions slot_epoch_emits_iff_all_frames_arrive.
+
 (** non-vacuity: a three-frame packet delivered last-frame-first is emitted, intact *)
 Example reorder_emits :
   let d1 := repeat 1 256 in let d2 := repeat 2 256 in let d3 := repeat 3 10 in
